@@ -327,3 +327,117 @@ func dupNames(r *vh.Rng, ds []*Decl, p float64, edi bool) bool {
 	}
 	return changed
 }
+
+// genLong: a long input (several reader-buffer refills) of multi-line envelopes.
+//
+//	variant 0/1  E (target): rows 2 / rows 3
+//	variant 2    E (target): header H ... footer T
+//	variant 3    G (target) = [ E rows 2 (1..1), D (0..2) ]: the multi-line record leads a group
+//	variant 4    G (target) = [ E header H ... footer T (1..1), D (0..2) ]
+//
+// preceded by one filler line F whose padding is pad (swept by the caller) and followed by an
+// optional trailer Z; blank lines are sprinkled inside and between the envelopes.
+func genLong(r *vh.Rng, driver string, pad int, variant int) *Case {
+	const F, R, H, M, T, D, Z = 6, 18, 8, 13, 20, 4, 26
+	filler := &Decl{Name: 100, Min: 1, Max: 1, Leaf: Leaf{Kind: "name", N: F}}
+	var env *Decl
+	switch variant {
+	case 0:
+		env = &Decl{Name: 101, Min: 0, Max: -1, Leaf: Leaf{Kind: "rows", K: 2}}
+	case 1:
+		env = &Decl{Name: 101, Min: 0, Max: -1, Leaf: Leaf{Kind: "rows", K: 3}}
+	case 2:
+		env = &Decl{Name: 101, Min: 0, Max: -1, Leaf: Leaf{Kind: "hf", N: H, F: T}}
+	case 3:
+		env = &Decl{Name: 101, Group: true, Min: 0, Max: -1, Kids: []*Decl{
+			{Name: 102, Min: 1, Max: 1, Leaf: Leaf{Kind: "rows", K: 2}},
+			{Name: 103, Min: 0, Max: 2, Leaf: Leaf{Kind: "name", N: D}}}}
+	default:
+		env = &Decl{Name: 101, Group: true, Min: 0, Max: -1, Kids: []*Decl{
+			{Name: 102, Min: 1, Max: 1, Leaf: Leaf{Kind: "hf", N: H, F: T}},
+			{Name: 103, Min: 0, Max: 2, Leaf: Leaf{Kind: "name", N: D}}}}
+	}
+	env.Target = true
+	ds := []*Decl{filler, env}
+	var names []int
+	names = append(names, F)
+	nenv := r.Between(150, 420)
+	for e := 0; e < nenv; e++ {
+		switch variant {
+		case 0:
+			names = append(names, R, R)
+		case 1:
+			names = append(names, R, R, R)
+		case 2, 4:
+			names = append(names, H)
+			for i, k := 0, r.Between(0, 3); i < k; i++ {
+				names = append(names, M)
+			}
+			names = append(names, T)
+		case 3:
+			names = append(names, R, R)
+		}
+		if variant >= 3 {
+			for i, k := 0, r.Pick(3); i < k; i++ {
+				names = append(names, D)
+			}
+		}
+	}
+	if variant == 2 || variant == 4 {
+		if r.Chance(0.5) {
+			ds = append(ds, &Decl{Name: 104, Min: 0, Max: 1, Leaf: Leaf{Kind: "name", N: Z}})
+			names = append(names, Z)
+		}
+	}
+	if r.Chance(0.2) { // damage near the end: a dangling line
+		names = append(names, []int{R, H, M, undeclaredName}[r.Pick(4)])
+	}
+	us := make([]Unit, len(names))
+	for i, n := range names {
+		us[i] = Unit{Name: n, ID: i + 1}
+		if r.Chance(0.15) {
+			us[i].Blank = r.Between(1, 2)
+		}
+		if r.Chance(0.05) {
+			us[i].Pad = r.Between(1, 9)
+		}
+	}
+	us[0].Pad = pad
+	return &Case{Driver: driver, Decls: ds, Units: us, Release: r.Pick(3), Omit: r.Chance(0.5)}
+}
+
+// genEdiLong: an EDI input of several scanner-buffer refills (the EDI reader's buffer is 128
+// bytes): H, then groups G = [A, B*] (target), then a LAST declaration that is optional and
+// repeatable (the reader re-reads its input at EOF once per unwinding step there).
+func genEdiLong(r *vh.Rng) *Case {
+	const H, A, B, T = 8, 1, 2, 20
+	g := &Decl{Name: 101, Group: true, Target: true, Min: 0, Max: -1, Kids: []*Decl{
+		{Name: A, Min: 1, Max: 1, Leaf: Leaf{Kind: "name", N: A}},
+		{Name: B, Min: 0, Max: -1, Leaf: Leaf{Kind: "name", N: B}}}}
+	if r.Chance(0.3) {
+		g.Kids[1].Kids = []*Decl{{Name: 3, Min: 0, Max: 2, Leaf: Leaf{Kind: "name", N: 3}}}
+	}
+	ds := []*Decl{{Name: H, Min: 1, Max: 1, Leaf: Leaf{Kind: "name", N: H}}, g,
+		{Name: T, Min: 0, Max: -1, Leaf: Leaf{Kind: "name", N: T}}}
+	names := []int{H}
+	for e, n := 0, r.Between(8, 40); e < n; e++ {
+		names = append(names, A)
+		for i, k := 0, r.Pick(4); i < k; i++ {
+			names = append(names, B)
+			if len(g.Kids[1].Kids) > 0 && r.Chance(0.4) {
+				names = append(names, 3)
+			}
+		}
+	}
+	for i, k := 0, r.Pick(4); i < k; i++ {
+		names = append(names, T)
+	}
+	if r.Chance(0.15) {
+		names = append(names, undeclaredName)
+	}
+	us := make([]Unit, len(names))
+	for i, n := range names {
+		us[i] = Unit{Name: n, ID: i + 1}
+	}
+	return &Case{Driver: "edi", Decls: ds, Units: us, Release: r.Pick(3), Omit: r.Chance(0.5)}
+}
